@@ -2103,7 +2103,8 @@ class Node(SimComponent, ABC):
 
         to the red agent.
         """
-        self.node_scan_countdown = self.config.node_scan_duration
+        # a duration of 0 completes on the next timestep (a countdown of 0 would never run the scan)
+        self.node_scan_countdown = max(self.config.node_scan_duration, 1)
         return True
 
     def reveal_to_red(self) -> bool:
